@@ -6,6 +6,7 @@ package cmd
 // upstream, and an environment in which nothing outside the process is needed.
 
 import (
+	"context"
 	"crypto/ecdsa"
 	"crypto/elliptic"
 	"crypto/rand"
@@ -25,11 +26,16 @@ import (
 	"testing"
 	"time"
 
+	"github.com/AdguardTeam/AdGuardDNS/internal/backendpb"
 	"github.com/AdguardTeam/AdGuardDNS/internal/geoip"
 	"github.com/AdguardTeam/golibs/netutil/urlutil"
 	"github.com/AdguardTeam/golibs/timeutil"
 	"github.com/c2h5oh/datasize"
 	"github.com/miekg/dns"
+	"google.golang.org/grpc"
+	"google.golang.org/grpc/codes"
+	"google.golang.org/grpc/credentials/insecure"
+	"google.golang.org/grpc/status"
 	"gopkg.in/yaml.v2"
 )
 
@@ -42,6 +48,10 @@ type vc20Fixture struct {
 
 	// closed is a loopback TCP address nothing listens on.
 	closed string
+
+	// rlBackend, if not nil, is the fake rate-limit backend the environment
+	// points to; otherwise nothing listens at the backend's address.
+	rlBackend *vc20RateLimitBackend
 
 	// forceFull makes the exercise create, start and query the listeners for
 	// every configuration (the other steps are repeated only if their input
@@ -339,6 +349,64 @@ func (fx *vc20Fixture) vc20FreshPorts(tb testing.TB, tree any) {
 	}
 }
 
+// vc20RateLimitBackend returns the address of the rate-limit backend.
+func (fx *vc20Fixture) vc20RateLimitBackend() (hostport string) {
+	if fx.rlBackend != nil && !fx.rlBackend.refuse {
+		return fx.rlBackend.addr
+	}
+
+	return fx.closed
+}
+
+// vc20RateLimitBackend is a fake gRPC rate-limit backend whose behaviour can be
+// switched.
+type vc20RateLimitBackend struct {
+	backendpb.UnimplementedRateLimitServiceServer
+
+	addr string
+
+	// refuse makes the environment point to a closed port instead; fail makes
+	// every call end in a gRPC error.
+	// laterFail makes the exercise fail the backend after a successful
+	// start-up and refresh again.
+	refuse    bool
+	laterFail bool
+	fail      atomic.Bool
+	calls     atomic.Int64
+}
+
+// GetRateLimitSettings implements the [backendpb.RateLimitServiceServer]
+// interface for *vc20RateLimitBackend.
+func (s *vc20RateLimitBackend) GetRateLimitSettings(
+	_ context.Context,
+	_ *backendpb.RateLimitSettingsRequest,
+) (resp *backendpb.RateLimitSettingsResponse, err error) {
+	s.calls.Add(1)
+	if s.fail.Load() {
+		return nil, status.Error(codes.Unavailable, "c20: the backend is failing")
+	}
+
+	return &backendpb.RateLimitSettingsResponse{
+		AllowedSubnets: []*backendpb.CidrRange{{Address: []byte{203, 0, 113, 7}, Prefix: 32}},
+	}, nil
+}
+
+// vc20StartRateLimitBackend starts the fake backend on a loopback port.
+func vc20StartRateLimitBackend(tb testing.TB) (s *vc20RateLimitBackend) {
+	ln, err := net.Listen("tcp", "127.0.0.1:0")
+	if err != nil {
+		tb.Fatalf("fixture: %v", err)
+	}
+
+	s = &vc20RateLimitBackend{addr: ln.Addr().String()}
+	grpcSrv := grpc.NewServer(grpc.ConnectionTimeout(time.Second), grpc.Creds(insecure.NewCredentials()))
+	backendpb.RegisterRateLimitServiceServer(grpcSrv, s)
+	go func() { _ = grpcSrv.Serve(ln) }()
+	tb.Cleanup(grpcSrv.Stop)
+
+	return s
+}
+
 // vc20NewFixture prepares the fixture.
 func vc20NewFixture(tb testing.TB) (fx *vc20Fixture) {
 	fx = &vc20Fixture{dir: tb.TempDir(), repo: vc20RepoDir(), basePorts: map[int]struct{}{}}
@@ -481,10 +549,10 @@ func (fx *vc20Fixture) vc20Environment() (envs *environment) {
 
 	return &environment{
 		AdultBlockingURL:         missing("adult.txt"),
-		BackendRateLimitURL:      vc20URL("grpc://127.0.0.1:9"),
+		BackendRateLimitURL:      vc20URL("grpc://" + fx.vc20RateLimitBackend()),
 		BillStatURL:              vc20URL("grpc://127.0.0.1:9"),
 		BlockedServiceIndexURL:   missing("services.json"),
-		ConsulAllowlistURL:       vc20URL("http://127.0.0.1:9/allowlist"),
+		ConsulAllowlistURL:       vc20URL("http://" + fx.closed + "/allowlist"),
 		ConsulDNSCheckKVURL:      vc20URL("http://127.0.0.1:9/v1/kv/c20"),
 		ConsulDNSCheckSessionURL: vc20URL("http://127.0.0.1:9/v1/session/create"),
 		DNSCheckRemoteKVURL:      vc20URL("grpc://127.0.0.1:9"),
